@@ -723,8 +723,17 @@ class FieldStorageParser:
                 self.done = -1
                 break
             if delim == b"\r":
-                line = delim + line
-                delim = b""
+                if line.startswith(b"\n"):
+                    # CRLF divided by the size limit; a reader that ends
+                    # lines only at CRLF returns the LF glued to what follows
+                    delim = b"\r\n"
+                    line = line[1:]
+                    last_line_lfend = True
+                    if not line:
+                        continue
+                else:
+                    line = delim + line
+                    delim = b""
             if line.startswith(b"--") and last_line_lfend:
                 strippedline = line.rstrip()
                 if strippedline == next_boundary:
